@@ -28,7 +28,7 @@ RULE = ("(overlap: an apply() started 0.05..0.65 s into a multi-query poll of th
 ASSUMPTIONS = ["'irrelevant by specification' = bad checksum, shorter than header+id, unknown response id, state body shorter than 16 "
                "bytes, group-data body shorter than the fixed offsets of its group (19 for energy, 5 for humidity)"]
 
-OPS = ["refresh", "apply", "apply_props", "caps", "toggle", "clean", "refresh,apply", "caps,refresh,apply_props", "refresh,toggle,apply"]
+OPS = ["refresh", "apply", "apply_props", "caps", "toggle", "clean", "refresh,apply", "caps,refresh,apply_props", "refresh,toggle,apply", "refresh,caps,refresh"]
 
 
 def rebuild(ftype: int, body_wo_check: bytes, check: str = "crc") -> bytes:
@@ -180,6 +180,8 @@ def _run(case: dict, with_bad: bool):
         if not case.get("two_pages"):
             m.cap_pages = m1.cap_pages
         m.response_hook = lambda fr, p, outp: pre + (outp if good else []) + post
+        if case.get("fan") is not None:
+            m.state.fan = case["fan"]        # the unit reports an in-between fan speed (whatever its capabilities say)
         try:
             await _operate(ac, case["op"])
         except Exception as e:
@@ -410,6 +412,17 @@ def run(ctx) -> None:
                         case["strict"] = True
                     ctx.check(case, lambda c: _run_one(ctx, c))
     ctx.sweep("bad frame catalogue x operations x arrangements", n, not ctx.quick)
+    # histories in which the client polls before it knows the capabilities (any reported fan speed is then taken as is), learns
+    # them, and polls again - the unit reporting in-between fan speeds throughout
+    fh = 0
+    for fan in (1, 33, 50, 99, 101, 0, 127):
+        for op in ("refresh,caps,refresh", "refresh,caps,refresh,apply", "refresh,caps,toggle", "caps,refresh,apply", "refresh,caps,apply_props,refresh"):
+            for i, spec in enumerate(specs[:: max(1, len(specs) // 3)][:3]):
+                fh += 1
+                if ctx.mine(fh):
+                    case = {"op": op, "good": True, "pre": [spec] if i else [], "post": [], "two_pages": False, "prepared": False, "fan": fan}
+                    ctx.check(case, lambda c: _run_one(ctx, c))
+    ctx.sweep("poll before and after the capability query x reported in-between fan speed x bad frames", fh, True)
     # an apply overlapping a poll whose exchanges also carry undecodable frames
     ov = 0
     for i, spec in enumerate(specs[:: max(1, len(specs) // 24)]):
@@ -443,7 +456,7 @@ def run(ctx) -> None:
     )
     cases = st.fixed_dictionaries({"op": st.sampled_from(OPS), "good": st.booleans(), "pre": st.lists(spec, max_size=2),
                                    "post": st.lists(spec, max_size=2), "two_pages": st.booleans(), "prepared": st.booleans()},
-                                  optional={"hangup": st.sampled_from(["fin", "rst", "fin_same", "rst_same"]), "strict": st.booleans()})
+                                  optional={"hangup": st.sampled_from(["fin", "rst", "fin_same", "rst_same"]), "strict": st.booleans(), "fan": st.sampled_from([1, 33, 50, 99, 101])})
     ctx.hyp("mixes", cases, lambda c: _run_one(ctx, c), ctx.n(2500, 480000))
 
     # coverage-guided search (atheris/libFuzzer) over the same structured input space; an additional search,
